@@ -119,6 +119,40 @@ def write_evidence(pid, tier, seed, level, coverage, wall, violations, assumptio
     return path
 
 
+def run_selftest(prop_name, seed=0):
+    """Negative control of the binding: corrupt one field of recorded observations and demand that the
+    judge rejects every corrupted record (a judge that accepts them is not bound to the records)."""
+    import copy
+    import shutil
+    import tempfile
+    scratch = tempfile.mkdtemp(prefix='verif-%s-' % prop_name)
+    os.environ['VERIF_SCRATCH'] = scratch
+    try:
+        repo_on_path()
+        prop = importlib.import_module('harness.props.' + prop_name)
+        cases = prop.cases('quick', seed, {})
+        step = max(1, len(cases) // 12)
+        cases = cases[::step][:16]
+        records = []
+        for recs in drive(prop_name, cases):
+            records.extend(recs)
+        bad = []
+        for r in records[:: max(1, len(records) // 150)]:
+            c = prop.corrupt(copy.deepcopy(r))
+            if c is not None:
+                c['id'] = len(bad)
+                bad.append(c)
+        jr = tlc.judge(prop.TRACE, bad, shards=8, xmx=getattr(prop, 'JUDGE_XMX', '3g'))
+        rejected = {rid for rid, _ in jr['rejected']}
+        missed = [r['id'] for r in bad if r['id'] not in rejected]
+        print('SELFTEST property=%s corrupted=%d rejected=%d %s'
+              % (prop.ID, len(bad), len(rejected), 'ok' if bad and not missed else 'FAILED missed=%s' % missed[:10]),
+              flush=True)
+        return 0 if bad and not missed else 1
+    finally:
+        shutil.rmtree(scratch, ignore_errors=True)
+
+
 def run_property(prop_name, tier='quick', seed=0, replay=None, verbose=True):
     import shutil
     import tempfile
